@@ -192,9 +192,11 @@ def build_input(ex, w, handler, N):
     if handler == 'on_timeout':
         g = z3.Int('in_g'); e = w.num('in_e'); v = w.num('in_view')
         hv = none(); hq = none()
-        if ex.choose(2, 'in_hv') == 0:
+        if getattr(w, 'light', False):
+            pass
+        elif ex.choose(2, 'in_hv') == 0:
             hvv, _ = w.replica_commit('in_hv', g, e); hv = some(hvv)
-        if ex.choose(2, 'in_hq') == 0:
+        if not getattr(w, 'light', False) and ex.choose(2, 'in_hq') == 0:
             hqv, _ = w.commit_qc('in_hq'); hq = some(hqv)
         msg = mk.adt(R.V + r'v2::replica_timeout::ReplicaTimeout', view=w.view(g, v, e), high_vote=hv, high_qc=hq)
         signed, sok = w.signed(msg, ex.choose(N + 1, 'author'), 'in')
@@ -207,17 +209,33 @@ def build_input(ex, w, handler, N):
     raise KeyError(handler)
 
 
-def caches_for(ex, w, handler, N):
+def caches_for(ex, w, handler, N, rich=False):
     """small symbolic vote caches (<= 1 entry each) for the vote handlers"""
     if handler not in ('on_commit', 'on_timeout'):
         return None
     mk = w.mkr
     caches = {}
     kind = 'commit' if handler == 'on_commit' else 'timeout'
-    if ex.choose(2, 'cache') == 0:
-        ki = ex.choose(N, 'cache_key')
-        cv = w.num('cache_view')
-        caches[f'{kind}_views'] = MapV([(w.key(ki), mk.tuple_struct(R.V + r'consensus::ViewNumber', cv))], True)
+    if not rich:
+        if ex.choose(2, 'cache') == 0:
+            ki = ex.choose(N, 'cache_key')
+            cv = w.num('cache_view')
+            caches[f'{kind}_views'] = MapV([(w.key(ki), mk.tuple_struct(R.V + r'consensus::ViewNumber', cv))], True)
+        return caches
+    n = ex.choose(3, 'cache_entries')          # 0, 1 or 2 validators have voted before
+    if n:
+        keys = [(0,), (1,), (0, 1)][ex.choose(3, 'cache_keys')] if n == 1 and N >= 2 else tuple(range(min(n, N)))
+        if n == 1: keys = keys[:1]
+        views = [w.num(f'cache_view{i}') for i in range(len(keys))]
+        caches[f'{kind}_views'] = MapV([(w.key(k), mk.tuple_struct(R.V + r'consensus::ViewNumber', v)) for k, v in zip(keys, views)], True)
+        # certificates under construction exist only for views some validator voted in (cache invariant); here: for each such view (distinct, ascending)
+        if len(views) == 2: ex.assume(views[0].e < views[1].e)
+        if ex.choose(2, 'qcs_cache') == 0:
+            ents = []
+            for v in views:
+                inner = MapV([], True) if kind == 'commit' else w.timeout_qc_empty(v)
+                ents.append((mk.tuple_struct(R.V + r'consensus::ViewNumber', v), inner))
+            caches[f'{kind}_qcs'] = MapV(ents, True)
     return caches
 
 
@@ -226,7 +244,8 @@ _DB = [None]
 
 def run_one(arg):
     """worker: one handler, one committee size, one preset of the top-level state choices"""
-    handler, N, budget = arg
+    handler, N, budget = arg[:3]
+    mode = arg[3] if len(arg) > 3 else 'full'
     db = _DB[0]
     ex = Exec(db, loop_bound=60)
     holder = [None]
@@ -234,9 +253,9 @@ def run_one(arg):
     t0 = time.time()
 
     def body(ex):
-        w = R.World(ex, db, N); holder[0] = w
-        caches = caches_for(ex, w, handler, N)
-        w.state(caches)
+        w = R.World(ex, db, N); holder[0] = w; w.light = (mode == 'caches')
+        caches = caches_for(ex, w, handler, N, rich=(mode == 'caches'))
+        w.state(caches, light=(mode == 'caches'))
         if handler == 'start_new_view':
             # called by the replica right after it adopted a (verified) certificate of view new_view - 1 >= its view
             if ex.choose(2, 'adopted') == 0:
@@ -293,12 +312,12 @@ def witness(m):
     return ', '.join(f'{d.name()}={m[d]}' for d in sorted(m.decls(), key=lambda d: d.name()) if d.arity() == 0 and not re.match(r'k!|shape|.*!\d+$', d.name()))[:700]
 
 
-def run_all(rep, db, tier, props, handlers=('start_timeout', 'start_new_view', 'on_new_view', 'on_commit', 'on_timeout', 'on_proposal')):
+def run_all(rep, db, tier, props, handlers=('start_timeout', 'start_new_view', 'on_new_view', 'on_commit', 'on_timeout', 'on_proposal'), mode='full'):
     """explore every handler and report the obligations belonging to `props`"""
     _DB[0] = db
     Ns = [2] if tier == 'quick' else [2, 3]
     budget = 1500 if tier == 'quick' else 6000
-    jobs = [(h, N, budget) for N in Ns for h in handlers]
+    jobs = [(h, N, budget, mode) for N in Ns for h in handlers]
     outs = F.parallel_map(run_one, jobs, workers=min(len(jobs), 12))
     for o in outs:
         if 'stats' in o: F.absorb_stats_dict(rep, o['stats'])
